@@ -43,6 +43,9 @@ func (v *View) amt(k string) *big.Int {
 	return x
 }
 
+// Amt reads a record that is a JSON string amount (absent = 0).
+func (v *View) Amt(key string) *big.Int { return v.amt(key) }
+
 // Bal is the OLT balance of a 0lt address.
 func (v *View) Bal(addr string) *big.Int { return v.amt("b_" + addr + "_OLT") }
 
